@@ -289,10 +289,15 @@ def main():
         # tensors by design: only the tensor and operator factors are counted
         oe = names.get('orb_energy', 'e')
 
+        from adcgen import tensor_names as _tn
+
         def is_energy(f_):
+            # orbital energies and symbolic denominators (tensor form of a
+            # denominator) repeat indices of the other tensors by design
             b_ = f_.args[0] if isinstance(f_, _Pow) else f_
-            return getattr(b_, 'name', None) == oe and \
-                len(getattr(b_, 'indices', ())) == 1
+            nm_ = getattr(b_, 'name', None)
+            return (nm_ == oe and len(getattr(b_, 'indices', ())) == 1) or \
+                nm_ == _tn.sym_orb_denom
         facs = [f_ for f_ in (t_.args if isinstance(t_, _Mul) else (t_,))
                 if not (isinstance(f_, _Add) or is_energy(f_) or (
                     isinstance(f_, _Pow) and (isinstance(f_.args[0], _Add)
